@@ -44,7 +44,7 @@ func (c07) Runs(tier string) int {
 	if tier == "thorough" {
 		return 60000
 	}
-	return 1200
+	return 2400
 }
 
 var c07Segs = []string{"a", "b", "ab", "a.", "a-", "a0", "a b", "A", "z", "é", "日", "a!", "a~", "0", "-", "_x", "a+b", "dir", "d", "x.y"}
